@@ -2,6 +2,8 @@ package main
 
 import (
 	"fmt"
+	"go/constant"
+	"strconv"
 	"go/types"
 	"sort"
 	"strings"
@@ -241,6 +243,10 @@ func (eng *Engine) Verify(con *Contract) (*VC, error) {
 	}
 	for _, fv := range fn.FreeVars {
 		v := vc.freshVal(fv.Type(), "fv."+fv.Name())
+		if v.K == KPtr {
+			// a free variable is the address of the captured variable: never nil, allocated by the enclosing function
+			vc.assumeRaw(And(Ne(v.T, IntLit(0)), vc.isAllocated(pre, v.T)))
+		}
 		fr.binds = append(fr.binds, v)
 		vc.noteRefs(v)
 	}
@@ -284,7 +290,9 @@ func (eng *Engine) Verify(con *Contract) (*VC, error) {
 		for i, cl := range con.Ensures {
 			vc.addGoals(penv, cl, fmt.Sprintf("ensures[%s]@ret%d", clauseLabel(cl, i), e.ord), "ensures", e.guard, "ensures ", fr.posString(e.instr.Pos()))
 		}
-		fr.frameCheck(e, pre, penv)
+		if !con.NoFrame {
+			fr.frameCheck(e, pre, penv)
+		}
 	}
 	// vacuity: some return must be reachable under the assumptions
 	vc.addObl(&Obligation{Name: "cover:return-reachable", Kind: "cover", Goal: Or(exitGuards...), Guard: True, Expect: "sat",
@@ -365,4 +373,104 @@ func boolKeys(m map[string]Term) map[string]bool {
 		r[k] = true
 	}
 	return r
+}
+
+// checkConstMap: the package initialiser stores a fresh map into the global, inserts exactly the
+// listed constant string keys, and no function of the package updates or reassigns that map.
+func (eng *Engine) checkConstMap(cm *ConstMap) (bool, string) {
+	var pkg *ssa.Package
+	for _, p := range eng.prog.AllPackages() {
+		if p.Pkg.Path() == cm.PkgPath {
+			pkg = p
+		}
+	}
+	if pkg == nil {
+		return false, "package not found"
+	}
+	g, ok := pkg.Members[cm.Name].(*ssa.Global)
+	if !ok {
+		return false, "no package-level variable " + cm.Name
+	}
+	want := map[string]bool{}
+	for _, k := range cm.Keys {
+		want[k] = true
+	}
+	got := map[string]bool{}
+	nStores := 0
+	var mk ssa.Value
+	derives := func(v ssa.Value) bool { // v is the map held by the global
+		if v == mk && mk != nil {
+			return true
+		}
+		if u, ok := v.(*ssa.UnOp); ok {
+			if gg, ok := u.X.(*ssa.Global); ok && gg == g {
+				return true
+			}
+		}
+		return false
+	}
+	var fns []*ssa.Function
+	for _, fn := range eng.funcs {
+		if fn.Pkg == pkg {
+			fns = append(fns, fn)
+		}
+	}
+	sort.Slice(fns, func(i, j int) bool { return fns[i].String() < fns[j].String() })
+	// first pass: the single store
+	for _, fn := range fns {
+		for _, b := range fn.Blocks {
+			for _, in := range b.Instrs {
+				if st, ok := in.(*ssa.Store); ok {
+					if gg, ok := st.Addr.(*ssa.Global); ok && gg == g {
+						nStores++
+						if fn.Name() != "init" {
+							return false, cm.Name + " is assigned in " + fn.Name()
+						}
+						if _, isMk := st.Val.(*ssa.MakeMap); !isMk {
+							return false, cm.Name + " is not initialised with a map literal"
+						}
+						mk = st.Val
+					}
+				}
+			}
+		}
+	}
+	if nStores != 1 {
+		return false, fmt.Sprintf("%s is assigned %d times", cm.Name, nStores)
+	}
+	for _, fn := range fns {
+		for _, b := range fn.Blocks {
+			for _, in := range b.Instrs {
+				switch x := in.(type) {
+				case *ssa.MapUpdate:
+					if !derives(x.Map) {
+						continue
+					}
+					if fn.Name() != "init" {
+						return false, cm.Name + " is updated in " + fn.Name()
+					}
+					c, ok := x.Key.(*ssa.Const)
+					if !ok || c.Value == nil || c.Value.Kind() != constant.String {
+						return false, "non-constant key inserted into " + cm.Name
+					}
+					got[constant.StringVal(c.Value)] = true
+				case *ssa.Call:
+					if b, ok := x.Call.Value.(*ssa.Builtin); ok && (b.Name() == "delete" || b.Name() == "clear") && len(x.Call.Args) > 0 && derives(x.Call.Args[0]) {
+						return false, cm.Name + " is shrunk in " + fn.Name()
+					}
+				}
+			}
+		}
+	}
+	for k := range got {
+		if !want[k] {
+			return false, "unexpected key " + strconv.Quote(k) + " in " + cm.Name
+		}
+	}
+	for k := range want {
+		if !got[k] {
+			return false, "missing key " + strconv.Quote(k) + " in " + cm.Name
+		}
+	}
+	return true, ""
 }
